@@ -76,6 +76,14 @@ def xz(chain, ln=1500, nb=1, ns=1, check="crc32"):
     return "xz/%s/%s/%d/%d/%d" % (check, chain, ln, nb, ns)
 
 
+def xzmt(chain, ln=3000, nb=3, ns=1, check="crc32"):
+    """written by the threaded encoder (sizes in the Block Headers): the MT decoder really uses its worker threads"""
+    return "xzmt/%s/%s/%d/%d/%d" % (check, chain, ln, nb, ns)
+
+
+INIT_STEPS = ("easyenc", "senc", "sencmt", "aenc", "mlenc", "renc", "benc", "sdec", "sdecmt", "adec", "alonedec", "lzipdec", "rdec", "bdec", "mldec")
+
+
 def hexs(s):
     return s.encode().hex()
 
@@ -98,15 +106,25 @@ class Gen:
         t[1] = self.easy(0)
         return t
 
+    def assemble(self, steps, slots=()):
+        """scenario body + failure-free tail. If the body works on the handle only and starts with an init, the tail first
+        REPEATS THE WHOLE BODY on the same handle, without lzma_end in between: after "allocation k failed" every coder kind of
+        the scenario is re-initialised on the handle the failure left behind, and has to work completely (same return codes as
+        in the failure-free run, outputs verified). Then lzma_end and the generic easy-encoder / stream-decoder round trip."""
+        steps = list(steps)
+        while steps and steps[-1] == "end":
+            steps.pop()
+        handle_only = (not slots and steps and steps[0].split(":")[0] in INIT_STEPS
+                       and not any(st.startswith(("ix_", "idec", "fidec", "ienc")) for st in steps))
+        if handle_only:
+            return steps + ["nofail"] + steps + ["end"] + self.tail()[1:] + ["ix_end:%d" % s for s in sorted(slots)]
+        return steps + ["end"] + self.tail() + ["ix_end:%d" % s for s in sorted(slots)]
+
     def base_scenarios(self, quick):
         S = []
 
         def add(name, steps, slots=(), mt=False):
-            steps = list(steps)
-            if not steps or steps[-1] != "end":
-                steps.append("end")
-            full = steps + self.tail() + ["ix_end:%d" % s for s in slots]
-            S.append((name, full, mt))
+            S.append((name, self.assemble(steps, slots), mt))
 
         # --- encoders -------------------------------------------------------------------------
         add("easy0", [self.easy(0), "run:1000", "finish:500"])
@@ -208,8 +226,17 @@ class Gen:
         # --- threaded coders: direct oracle only -----------------------------------------------
         add("mt-encoder", ["sencmt:%s:crc32:2:8192" % L2a, "run:30000", "finish:100", "sencmt:%s:crc64:3:4096" % L2a, "run:9000", "full:100", "finish:5000",
                            "sencmt:%s+%s:crc64:3:4096" % (X86, L2a), "finish:5000"], mt=True)
-        add("mt-decoder", ["sdecmt:0:2:" + xz(L2a, 3000, 3, 1), "dcode", "sdecmt:8:3:" + xz(L2a, 2000, 2, 2), "dcode",
-                           "sdecmt:0:1:" + xz("%s+%s" % (D4, L2a), 2000, 2, 1), "dcode"], mt=True)
+        add("mt-decoder", ["sdecmt:0:2:" + xz(L2a, 3000, 3, 1), "dcode", "sdecmt:8:3:" + xzmt(L2a, 2000, 2, 2), "dcode",
+                           "sdecmt:0:1:" + xzmt("%s+%s" % (D4, L2a), 2000, 2, 1), "dcode"], mt=True)
+        # threaded decoding proper (sizes in the Block Headers): a decode that ends mid-Block with a worker assigned - because an
+        # allocation failed (every k) or because the input simply stops (dpart) - then RE-INIT of the same handle without
+        # lzma_end, a complete decode, and (tail) all of it once more
+        A, B = xzmt(L2a, 3000, 3, 1), xzmt("%s+%s" % (D4, L2c), 2500, 4, 1, "crc64")
+        add("mt-decoder-reinit-after-failure", ["sdecmt:0:2:" + A, "dcode", "sdecmt:0:2:" + B, "dcode", "sdecmt:0:3:" + A, "dcode"], mt=True)
+        add("mt-decoder-abandon-midblock", ["sdecmt:0:2:" + A, "dpart:700", "sdecmt:0:2:" + A, "dcode", "sdecmt:0:3:" + B, "dpart:2500",
+                                            "sdecmt:0:2:" + B, "dpart:60", "sdecmt:0:2:" + A, "dcode", "sdecmt:0:2:" + A, "dpart:1500"], mt=True)
+        add("mt-encoder-reinit-after-failure", ["sencmt:%s:crc32:2:8192" % L2a, "run:20000", "sencmt:%s:crc32:2:8192" % L2a, "run:20000", "finish:100",
+                                                "sencmt:%s:crc64:3:4096" % L2c, "run:9000", "sencmt:%s:crc64:3:4096" % L2c, "finish:9000"], mt=True)
         add("mt-refused-updates", ["sencmt:%s:crc32:2:8192" % L2a, "run:20000", "upd:%s" % L2c, "upd:%s+%s" % (D4, L2a), "full:100", "upd:%s" % L2c,
                                    "run:5000", "upd:%s" % L2bad, "upd:%s" % L2a, "finish:10", "upd:%s" % L2a, "sdecmt:0:2:" + xz(L2a, 3000, 3, 1), "memlimit:1",
                                    "badaction", "dcode"], mt=True)
@@ -292,8 +319,7 @@ class Gen:
                 else:
                     steps += [rng.choice(["fcopy:" + ch, "bhdec:" + ch, "sbufenc:%s:crc32:300" % ch, "rbufdec:%s:300" % ch, "bbufdec:%s:crc32:300" % ch,
                                           "sbufdec:0:" + xz(ch, 300, 2, 1)])]
-            steps.append("end")
-            S.append(("random-%d" % i, steps + self.tail() + ["ix_end:%d" % s for s in sorted(slots)], False))
+            S.append(("random-%d" % i, self.assemble(steps, slots), False))
         return S
 
 
@@ -353,9 +379,10 @@ def run_batch(exe, lines):
         return [(o, None) for o in out]
     res = []
     for ln in lines:
-        rc1, o1, e1 = vlib.run_lines([exe], [ln], timeout=600)
+        rc1, o1, e1 = vlib.run_lines([exe], [ln], timeout=300)
         if rc1 != 0 or len(o1) != 1:
-            res.append((None, "exit code %d\n%s" % (rc1, e1)))
+            why = "watchdog: the scenario did not finish within 90 s (hang)\n" if rc1 in (-14, 124, 142) else ""
+            res.append((None, "%sexit code %d\n%s" % (why, rc1, e1)))
         else:
             res.append((o1[0], None))
     return res
